@@ -1109,7 +1109,12 @@ fn e2e_csv(rng: &mut Rng) -> (String, Vec<String>) {
             continue;
         }
         base.push((rows.len(), w.to_string()));
-        push(&mut rows, w, noun, 1000 + rng.below(5000) as i64, rng.below(9), rng.below(9), "A", "*", "*", w);
+        let (cost, l, r) = (1000 + rng.below(5000) as i64, rng.below(9), rng.below(9));
+        push(&mut rows, w, noun, cost, l, r, "A", "*", "*", w);
+        // homographs with identical parameters: equal path costs, the first inserted node must win
+        if rng.chance(1, 3) {
+            push(&mut rows, w, noun, cost, l, r, "A", "*", "*", w);
+        }
         words.push(w.to_string());
     }
     for _ in 0..1 + rng.below(3) {
@@ -1126,7 +1131,7 @@ fn e2e_csv(rng: &mut Rng) -> (String, Vec<String>) {
 }
 
 fn e2e_text(rng: &mut Rng, words: &[String]) -> String {
-    let extra = ["ーー", "アイウ", "カ", "12", "1,2", "x", "に", " ", "ーーー", "キロメ"];
+    let extra = ["ーー", "アイウ", "カ", "12", "1,2", "x", "に", " ", "ーーー", "キロメ", "\u{301}", "\u{3099}", "\u{301}"];
     loop {
         let mut s = String::new();
         for _ in 0..1 + rng.below(4) {
